@@ -1,7 +1,7 @@
 """C02 -- GLR forest contains every derivation of the input."""
 import multiprocessing as mp
 
-from lib import common, glrcases, refparse
+from lib import common, glrcases, glrcorr, refparse
 
 LEVEL = "proof"
 ASSUMPTIONS = [
@@ -188,14 +188,23 @@ def run(ctx):
                 st["baseline_differs"] += 1
                 ctx.violation("GLR forest lacks %d derivation(s) of the input (certified by tree_ok)" % len(miss),
                               rep, key="missing")
+    # ---- GLR driver model vs GLRParser.parse (consume_input on) ---------------------------------
+    # the extracted Gallina model of the driver (Model/GLR.v, command 210) and the impl run on
+    # the same grammar/table/match matrix/input; accept/reject and the whole forest graph are
+    # compared (harness/lib/glrcorr.py)
+    gm = glrcorr.run(ctx, consume=True)
+    st["glr_model"] = gm
+    # ---- end of the GLR driver model block ---------------------------------------------------------
     return {
-        "evaluations": st["inputs"],
+        "evaluations": st["inputs"] + gm["glr_model_cases"],
+        "glr_model_cases": gm["glr_model_cases"],
+        "glr_model_agree": gm["glr_model_agree"],
         "distinct_nontrivial": len(distinct),
         "rule": "curated + lexical + seeded random grammars without priorities, LALR and SLR, all strings up to a "
                 "length bound; compared when the grammar/input has finitely many (<= %d) derivations; non-trivial = "
                 "ambiguous sentence; distinct by (grammar, table kind, input)" % CAP,
         "samples": samples,
-        "traces_validated_against_impl": st["compared"],
+        "traces_validated_against_impl": st["compared"] + gm["glr_model_agree"],
         "distribution": st,
         "crosscheck_vm_compute_cases": nx,
         "exhaustive": False,
